@@ -14,4 +14,5 @@ def units(tier):
         u.append(dict(kind="xlift", mechanism="xlift bounded (C), exact", name=f"xlift:rewrites[{k}/{NSHARDS}]", module="vf.tasks.t_rewrite", func="unit",
                       args=dict(shard=k, nshards=NSHARDS)))
     u.append(dict(kind="func", mechanism="bounded runtime contract (C)", name="bounded:nested-groups", module="vf.tasks.t_rewrite", func="unit_nested", args={}))
+    u.append(dict(kind="func", mechanism="lemmas (D: Lean 4 + Mathlib, kernel-checked)", name="lemmas:lean", module="vf.lemmas.leancheck", func="unit", args=dict(only=['Lsortperm'])))
     return u
